@@ -7,7 +7,8 @@ from collections import OrderedDict
 
 
 class UsmModel:
-    def __init__(self):
+    def __init__(self, fallback=None):
+        self.fallback = dict(fallback or {})  # what the application's unit-system class answers for unconfigured categories
         self.systems = OrderedDict()
         self.current = None
         self.template = None
@@ -72,4 +73,5 @@ class UsmModel:
     def current_default_unit(self, category):
         if self.current is None:
             return None
-        return self.systems[self.current].get(category)
+        unit = self.systems[self.current].get(category)
+        return self.fallback.get(category) if unit is None else unit
